@@ -297,6 +297,7 @@ type obs struct {
 	Session  bool   `json:"session"`  // a session for the presented address exists afterwards
 	Stored   bool   `json:"stored"`   // a stored record for it exists afterwards
 	BoundKey string `json:"boundkey"` // presented | previous | other | none
+	Met      bool   `json:"met"`      // the victim learned the presenter's TRUE identity earlier (a completed handshake)
 	Detail   string `json:"detail"`
 }
 
@@ -421,17 +422,41 @@ func handlerOutcome(res []world.Handled, err error) (string, string) {
 }
 
 // entry: peering request of a real link set-up
-func presentPeering(c *vf.Ctx, a act, rng *rand.Rand) (obs, bool, forged) {
+func presentPeering(c *vf.Ctx, a act, rng *rand.Rand, met bool) (obs, bool, forged) {
 	s := newScene(rng)
 	f := forge(a, rng, s.r.ID.IP)
 	o := mkObs(a)
-	ln, err := liar(s, f)
-	if err != nil {
-		return o, false, f
-	}
+	o.Met = met
 	var prev ed25519.PublicKey
 	if a.IP == "known" {
 		prev = s.r.ID.PublicKey
+	}
+	if met {
+		// the holder of the key was here before, with its true identity; the link has been closed since
+		g := genuine(a.Eased)
+		prev = g.PublicKey
+		gn := s.ms.W.NewNode("before", world.NodeOpts{ID: g})
+		before := linkworld.Connect(gn, s.v, nil, 150*time.Millisecond)
+		if before.LinkA == nil || before.LinkB == nil || s.v.St.GetSession(g.IP) == nil {
+			c.Broken("C01 peering: the earlier genuine handshake failed: %v %v", before.ErrA, before.ErrB)
+			return o, false, f
+		}
+		for _, n := range []*world.Node{gn, s.v} {
+			for _, l := range n.Peer.GetLinks() {
+				if l.Peer() == g.IP || l.Peer() == s.v.ID.IP {
+					l.Close(nil)
+				}
+			}
+		}
+		before.Proxy.Close()
+		for i := 0; i < 200 && s.v.Peer.GetLink(g.IP) != nil; i++ {
+			time.Sleep(time.Millisecond)
+		}
+		time.Sleep(10 * time.Millisecond) // the time stamps of the new stack must lie after those of the old one
+	}
+	ln, err := liar(s, f)
+	if err != nil {
+		return o, false, f
 	}
 	var res *linkworld.Result
 	if p, pv, _ := vf.NoPanic(func() { res = linkworld.Connect(ln, s.v, nil, 150*time.Millisecond) }); p {
@@ -713,7 +738,7 @@ func run(c *vf.Ctx) {
 			f := forge(a, rng, mesh.Identities(1)[0].IP)
 			record(presentConfig(c, a, f, i%7 == 0 || nCorrupt(a) == 0), true, f, a)
 		case "peering":
-			o, ok, f := presentPeering(c, a, rng)
+			o, ok, f := presentPeering(c, a, rng, false)
 			record(o, ok, f, a)
 		case "ping":
 			o, ok, f := presentPing(c, a, rng)
@@ -723,6 +748,29 @@ func run(c *vf.Ctx) {
 			record(o, ok, f, a)
 		}
 	}
+	// peering requests signed by the real key of an address the victim has met before, with every other part of the
+	// tuple changed
+	nmet := 0
+	metWhy := map[string]int{}
+	for _, a := range presents {
+		if a.Entry != "peering" || a.IP != "digest" || a.Key != "orig" {
+			continue
+		}
+		if nCorrupt(a) > 1 && !c.Thorough() && rng.Intn(3) != 0 {
+			continue
+		}
+		o, ok, f := presentPeering(c, a, rng, true)
+		f.desc["met"] = true
+		record(o, ok, f, a)
+		nmet++
+		why := o.Outcome + ": " + o.Detail
+		if len(why) > 70 {
+			why = why[:70]
+		}
+		metWhy[why]++
+	}
+	c.Extra("peering_requests_from_a_router_met_before", map[string]any{"requests": nmet, "answers": metWhy})
+	c.Logf("R: %d peering requests from a router met before: %v", nmet, metWhy)
 	// every bit of the address and of the key (thorough), a sample (quick), through the cheap entries
 	bits := c.Pick(24, 376)
 	for b := 0; b < bits; b++ {
@@ -921,6 +969,10 @@ func explain(o obs) string {
 		return "genuine-identity-rejected"
 	case !acc && o.Outcome == "ok":
 		return "forged-identity-accepted"
+	case o.Met && (!o.Session || o.BoundKey != "previous"):
+		return "met-router-key-replaced"
+	case o.Met:
+		return ""
 	case acc && (!o.Session || !o.Stored || o.BoundKey != "presented"):
 		return "accepted-but-not-bound"
 	case !acc && o.IP == "known" && o.BoundKey != "previous":
